@@ -8,6 +8,9 @@ from productmd.modules import Modules
 from productmd.extra_files import ExtraFiles
 from domains import KINDS, make_value, in_domain
 import C06
+import io
+import productmd.treeinfo
+from productmd.common import SortedConfigParser
 
 PROPERTY = "C07"
 
@@ -158,6 +161,114 @@ def delete_key(sym, fmt, path, k):
     sym.check("missing-required-key-rejected", raised)
 
 
+def tree_parser(k):
+    """a valid current-version .treeinfo, produced by the real writer, parsed back into a parser object"""
+    ti, _ = C06.base_treeinfo(k)
+    p = SortedConfigParser()
+    p.read_string(ti.dumps())
+    return p
+
+
+def tree_text(p):
+    f = io.StringIO()
+    p.write(f)
+    f.seek(0)
+    return f.read()
+
+
+def tree_fetch(ti, getter):
+    obj = ti
+    for g in getter:
+        if g.startswith("["):
+            obj = obj[g[1:-1]]
+        else:
+            obj = getattr(obj, g)
+    return obj
+
+
+def tree_corrupt_option(sym, section, option, rule, maxlen, getter, k):
+    """one option of a .treeinfo takes a value outside its documented domain: rejected, or valid after load"""
+    p = tree_parser(k)
+    v = sym.str("v", maxlen, alphabet="printable")
+    sym.assume(sym.not_(v.startswith(" ")))
+    sym.assume(sym.not_(v.endswith(" ")))
+    d = in_domain(sym, rule, "str", v)
+    if d is True:
+        return
+    sym.assume(sym.not_(d))
+    p.set(section, option, v)
+    sym.cover("corrupted")
+    ti = productmd.treeinfo.TreeInfo()
+    try:
+        ti.loads(tree_text(p))
+        raised = False
+    except Exception:
+        raised = True
+    if raised:
+        sym.check("rejected-or-valid-after-load", True)
+        return
+    sym.cover("accepted-after-normalisation")
+    loaded = tree_fetch(ti, getter)
+    ok = in_domain(sym, rule, kind_of(loaded), loaded)
+    sym.check("rejected-or-valid-after-load", ok is None or ok)
+
+
+def tree_header(sym, k):
+    p = tree_parser(k)
+    major = sym.int("major", 0, 3)
+    minor = sym.int("minor", 0, 3)
+    sym.assume(sym.or_(major > 1, sym.and_(major == 1, minor >= 1)))      # older versions select older readers (C05)
+    t = sym.str("type", 20, alphabet="printable")
+    sym.assume(sym.not_(t.startswith(" ")))
+    sym.assume(sym.not_(t.endswith(" ")))
+    sym.assume(t != "productmd.treeinfo")
+    p.set("header", "version", "%d.%d" % (major, minor))
+    p.set("header", "type", t)
+    ti = productmd.treeinfo.TreeInfo()
+    try:
+        ti.loads(tree_text(p))
+        raised = False
+    except Exception:
+        raised = True
+    sym.cover("loaded")
+    sym.check("foreign-type-rejected-from-1.1", raised)
+
+
+def tree_version(sym, k):
+    p = tree_parser(k)
+    v = sym.str("version", 6, alphabet="printable")
+    sym.assume(sym.not_(v.startswith(" ")))
+    sym.assume(sym.not_(v.endswith(" ")))
+    wellformed = sym.and_(v.count(".") == 1, sym.chars_in(v, ["0-9", "."]), sym.not_(v.startswith(".")), sym.not_(v.endswith(".")))
+    sym.assume(sym.not_(wellformed))
+    p.set("header", "version", v)
+    ti = productmd.treeinfo.TreeInfo()
+    try:
+        ti.loads(tree_text(p))
+        raised = False
+    except Exception:
+        raised = True
+    sym.cover("loaded")
+    sym.check("malformed-version-rejected", raised)
+
+
+def tree_delete(sym, section, option, k):
+    p = tree_parser(k)
+    p.set("tree", "build_timestamp", str(sym.int("timestamp", 1, 2 ** 40)))
+    if option is None:
+        p.remove_section(section)
+    else:
+        p.remove_option(section, option)
+    ti = productmd.treeinfo.TreeInfo()
+    try:
+        ti.loads(tree_text(p))
+        raised = False
+    except Exception:
+        raised = True
+    sym.cover("loaded")
+    sym.check("missing-required-key-rejected", raised)
+
+
 COMPOSE_LEAVES = [("id", "compose-id", 12), ("type", "compose-type", 12), ("date", "date", 9), ("respin", "int", 0), ("label", "label", 16)]
 RELEASE_LEAVES = [("name", "str", 3), ("short", "str", 3), ("version", "release-version", 6), ("type", "release-type", 16)]
 VARIANT_LEAVES = [("id", "variant-id", 6), ("name", "str-nonblank", 3), ("type", "variant-type", 16)]
@@ -211,17 +322,38 @@ def jobs(tier, seed):
     for fmt, paths in required.items():
         for p in paths:
             out.append({"harness": "delete_key", "params": {"fmt": fmt, "path": p, "k": k}})
+    # treeinfo
+    arch = ["x86_64", "src", "s390x"][k % 3]
+    for section, option, rule, maxlen, getter in [
+            ("release", "version", "tree-version", 5, ["release", "version"]),
+            ("base_product", "version", "tree-version", 5, ["base_product", "version"]),
+            ("variant-Server", "type", "tree-variant-type", 10, ["variants", "[Server]", "type"]),
+            ("variant-Client", "type", "tree-variant-type", 10, ["variants", "[Client]", "type"]),
+            ("variant-Server", "id", "tree-variant-id", 6, ["variants", "[Server]", "id"]),
+            ("stage2", "mainimage", "relative-path", 5, ["stage2", "mainimage"]),
+            ("images-xen", "kernel", "relative-path", 5, ["images", "images", "[xen]", "[kernel]"]),
+            ("images-" + arch, "boot.iso", "relative-path", 5, ["images", "images", "[%s]" % arch, "[boot.iso]"])]:
+        out.append({"harness": "tree_corrupt_option", "params": {"section": section, "option": option, "rule": rule, "maxlen": maxlen, "getter": getter, "k": k}})
+    out.append({"harness": "tree_header", "params": {"k": k}})
+    out.append({"harness": "tree_version", "params": {"k": k}})
+    for section, option in [("release", None), ("release", "name"), ("release", "version"), ("base_product", None), ("base_product", "short"),
+                            ("tree", "arch"), ("tree", "platforms"), ("tree", "build_timestamp"), ("variant-Server", None), ("variant-Server", "id"),
+                            ("variant-Server", "uid"), ("variant-Server", "name"), ("variant-Server", "type"), ("addon-Server-HA", None),
+                            ("media", "totaldiscs")]:
+        out.append({"harness": "tree_delete", "params": {"section": section, "option": option, "k": k}})
     return out
 
 
 META = {
-    "expected_covers": {"corrupt_leaf": ["corrupted"], "header_type": ["loaded"], "header_version": ["loaded"], "delete_key": ["loaded"]},
+    "expected_covers": {"corrupt_leaf": ["corrupted"], "header_type": ["loaded"], "header_version": ["loaded"], "delete_key": ["loaded"],
+                        "tree_corrupt_option": ["corrupted"], "tree_header": ["loaded"], "tree_version": ["loaded"], "tree_delete": ["loaded"]},
     "assumptions": [
         "base documents are produced by the real writer from valid objects (nested/layered-product variants, three images, one payload entry); one corruption at a time",
         "oracle: the load raises, or the value found in the loaded object is again inside the documented domain (the readers normalise e.g. numeric strings, "
         "case of release types, empty labels) - i.e. nothing obtained from a successful load violates what writing enforces",
         "documentation-silent corners as in C06 (non-ASCII digits, newlines, bool for int, size 0); fields the readers coerce with bool() have no load-time rule",
-        "treeinfo and discinfo documents are covered once the INI / line text layer is enabled",
+        "treeinfo documents: the written base tree is parsed into a parser object, one option is replaced / removed, the text is written again and loaded; "
+        "values printable ASCII without leading/trailing blank; sections with a documented legacy fall-back (header, [tree]) are not 'required'",
         "JSON text layer replaced by the DocText stub",
     ],
 }
